@@ -53,7 +53,7 @@ def outNats (xs : List Nat) : String := "[" ++ ".".intercalate ((xs.eraseDups.me
 /-- `c13model` / `c19model`: replay an abstract trace sequentially on the Prog model (`runQuery`), with
     the lists in `closed` closed before entry `closeAt` (never if negative).  Prints, for every entry,
     `<sorted answer>:<cache size>` with `_` where the harness could not observe. -/
-def opProgModel (args : List W) : String :=
+def opProgModel (withSpec : Bool) (args : List W) : String :=
   match args with
   | [tw, cw, kw, ew] =>
     match decTruth tw, decIntList cw, kw.int?, ew.list? with
@@ -74,14 +74,26 @@ def opProgModel (args : List W) : String :=
           let fin := if t.pc.isDone then "" else "!unfinished"
           (s', (a ++ ":" ++ z ++ fin) :: acc.2)
         let (_, outs) := ((List.range entries.length).zip entries).foldl go (({} : State Nat), [])
-        ",".intercalate outs.reverse ++ " -"
+        -- the stateless reference (fault-free histories only): `pureAnswer` of each query, and the cache
+        -- holds exactly the retrievable indices among all candidates seen so far
+        let specGo := fun (acc : List Int × List String) (ke : Nat × FEntry) =>
+          let (k, e) := ke
+          let q : Query := if e.pool then .dns { hostname := entryKey k } else .web { hostname := entryKey k }
+          let seen := (acc.1 ++ e.cands.filter (fun i => (env.truth i).isSome)).eraseDups
+          let a := if e.obsAns then outNats (pureAnswer env q) else "_"
+          let z := if e.obsSize then toString seen.length else "_"
+          (seen, (a ++ ":" ++ z) :: acc.2)
+        let spec := if withSpec then
+            ",".intercalate (((List.range entries.length).zip entries).foldl specGo ([], [])).2.reverse
+          else "-"
+        ",".intercalate outs.reverse ++ " " ++ spec
     | _, _, _, _ => "bad-decode"
   | _ => "bad-arity"
 
 def dispatchF (op : String) (args : List W) : Option String :=
   match op with
-  | "c13model" => some (opProgModel args)
-  | "c19model" => some (opProgModel args)
+  | "c13model" => some (opProgModel true args)
+  | "c19model" => some (opProgModel false args)
   | _ => none
 
 end UF.Ops
